@@ -253,12 +253,63 @@ static void sweep32_from()
 }
 
 // ---------------------------------------------------------------- crossings through a sandbox
+// The harness' OWN statement of the guest type of every application integer type (not RLBox's
+// type mapping: a slip in that mapping must show as a wrong width or a missing range check).
 template<typename Abi>
 struct GuestOf
 {
+  template<typename T, typename = void>
+  struct M
+  {
+    using type = T; // bool, char types, char16_t: same type in the guest
+  };
+  template<typename D>
+  struct M<short, D>
+  {
+    using type = typename Abi::T_ShortType;
+  };
+  template<typename D>
+  struct M<unsigned short, D>
+  {
+    using type = std::make_unsigned_t<typename Abi::T_ShortType>;
+  };
+  template<typename D>
+  struct M<int, D>
+  {
+    using type = typename Abi::T_IntType;
+  };
+  template<typename D>
+  struct M<unsigned, D>
+  {
+    using type = std::make_unsigned_t<typename Abi::T_IntType>;
+  };
+  template<typename D>
+  struct M<char32_t, D>
+  {
+    using type = std::make_unsigned_t<typename Abi::T_IntType>; // an unsigned type of int's rank
+  };
+  template<typename D>
+  struct M<long, D>
+  {
+    using type = typename Abi::T_LongType;
+  };
+  template<typename D>
+  struct M<unsigned long, D>
+  {
+    using type = std::make_unsigned_t<typename Abi::T_LongType>;
+  };
+  template<typename D>
+  struct M<long long, D>
+  {
+    using type = typename Abi::T_LongLongType;
+  };
+  template<typename D>
+  struct M<unsigned long long, D>
+  {
+    using type = std::make_unsigned_t<typename Abi::T_LongLongType>;
+  };
   template<typename T>
-  using t = detail::convert_base_types_t<T, typename Abi::T_ShortType, typename Abi::T_IntType, typename Abi::T_LongType,
-                                         typename Abi::T_LongLongType, typename Abi::T_PointerType>;
+  using t = typename M<T>::type;
 };
 
 // guest functions (guest ABI types are fixed-width, written by hand per ABI below)
